@@ -314,9 +314,7 @@ theorem toCSV_passes : Passes (toCSVStep (σ := σ)) toCSVSel := by
   unfold toCSVSel at h
   unfold toCSVStep
   simp only [ctxOr_d]
-  cases hc : (match getRec v.dict ["output", "to_csv"] with
-              | some x => x.truthy
-              | none => true)
+  cases hc : csvAllowed v.dict
   · simp
   · simp only [hc, Bool.true_and] at h
     cases hd : v.data <;> simp_all [Data.hasRows]
@@ -380,13 +378,13 @@ theorem mapGroup_passes (inner : σ → List Item → Step σ Item) : Passes (ma
   unfold mapGroupSel hasKey Item.dict at h
   unfold mapGroupStep
   cases hc : v.ctx with
-  | none => rfl
+  | none => simp
   | some c =>
     simp only [hc] at h
     cases hg : lookup c.d "group" with
-    | none => rfl
+    | none => simp [hg]
     | some g =>
       simp only [hg, Option.isSome_some, Bool.true_and] at h
-      simp [h]
+      simp [hg, h]
 
 end Lena.C10
